@@ -29,10 +29,10 @@ var plans = map[string]*plan{
 		Assume: []string{"a download is 'reported successful' when the object is delivered on Watch(); 'failed' otherwise", "rename failures and other disk errors are outside the statement and not injected"},
 		Extra: &plan{
 			ID: "C02", Engine: "B", Level: "exploration",
-			Stages: []stage{{"C02.custom", 100, 3000}, {"C02.two", 60, 2000}},
+			Stages: []stage{{"C02.custom", 100, 3000}, {"C02.file", 80, 2500}, {"C02.two", 60, 2000}},
 			Rule:   "the custom transfer adapter end to end: `git lfs fetch` of 1-4 objects through a scripted agent process (the orchestrator binary in agent mode), selected by the server's batch answer or as lfs.standalonetransferagent, concurrent or not; per object the agent answers one of ok / same-size bit flip / truncated / extra bytes / path to a missing file / error / completion for another oid / non-JSON / dies; optional stale garbage at the final location; a second fetch with a well-behaved agent. After each fetch: nothing but hash-valid content may appear at a final location, stale files survive failures, exit 0 implies everything needed is validly stored.",
 			Real:   realB, Stub: []string{"the transfer agent: scripted stub process speaking the line-JSON protocol", "LFS server: simulated (batch API only; the agent moves the bytes)"},
-			Assume: []string{"the ssh adapter is not covered (stated, not silently skipped)", "C02.two: two real git-lfs processes in one repository; their interleaving is fixed at the network: the server holds the first download part of the way until the second process has finished"},
+			Assume: []string{"the ssh adapter is not covered (stated, not silently skipped)", "C02.file: downloads (fetch / pull / checkout smudge / fetch --all) from a file:// remote through git-lfs's built-in standalone agent; the remote's stored copy of each object is ok / same-size bit flip / truncated / extended / missing / another object / empty, optionally on another file system (copy instead of hard link), optional stale garbage at the final location; a second round after the remote is repaired", "C02.two: two real git-lfs processes in one repository; their interleaving is fixed at the network: the server holds the first download part of the way until the second process has finished"},
 		},
 	},
 	"C18": {
@@ -123,7 +123,7 @@ var plans = map[string]*plan{
 	},
 	"C05": {
 		ID: "C05", Engine: "B", Level: "exploration",
-		Stages: []stage{{"C05.plain", 100, 2500}, {"C05", 300, 10000}},
+		Stages: []stage{{"C05.plain", 100, 2500}, {"C05.file", 80, 2500}, {"C05", 300, 10000}},
 		Rule:   "each scenario = one tape: a history with commit dates spread over 40 simulated days (writes, duplicates, deletes, renames, branches, merges, tags, orphan branches), partial pushes (branch / --all / --force) to a bare remote, then optional extra worktree (with a staged file), 0-2 stashes (plain, -u, --keep-index), staged-but-uncommitted file, detached HEAD; lfs.fetchrecentrefsdays / fetchrecentcommitsdays / pruneoffsetdays drawn from {0,1,3,7}; flags --force --recent --dry-run --verify-remote --verify-unreachable --when-unverified=continue; for --verify-remote a tape-chosen subset of objects is removed from the server; stage C05 additionally draws one of 7 spellings of the tracking attributes (incl. binary, -diff, text, eol=, custom diff driver) and one of 10 ambient user configurations that change git's diff/log output (diff.noprefix, mnemonicprefix, src/dstPrefix, renames, context, quotepath, showsignature, decorate, binary diff driver). Every scenario is non-trivial; distinct = distinct choice trace + outcomes.",
 		Real:   realB, Stub: stubB,
 		Assume: []string{"the must-retain set under-approximates the statement and is computed with git plumbing only (ls-tree, ls-files, raw diff-tree, rev-list), which is immune to the ambient diff configuration", "retention windows are only demanded at least 3 hours inside the boundary", "lfs.fetchexclude is not exercised", "simulated time is carried by commit dates relative to the run's start (40 days per scenario)"},
